@@ -18,7 +18,11 @@ type ReqSpec struct {
 	Dup    string        `json:"dup"`     // none|same-start|lower-start|higher-start|sibling
 	DupOf  int           `json:"dup_of"`  // request index, -1
 	Late   bool          `json:"late"`    // Result is first called only after the scanner went quiet
-	Role   string        `json:"role"`    // focus|carrier|extra|dup|sibling
+	Role   string        `json:"role"`    // focus|carrier|extra|dup|sibling|sweep|sweep-dup|sweep-made
+	// Shape (sweep family): position of the outpoint's spend among the
+	// watched spends of its block and how many duplicate requests exist for
+	// outpoints spent by earlier transactions; part of violation signatures.
+	Shape string `json:"shape,omitempty"`
 }
 
 // Action kinds.
@@ -72,6 +76,8 @@ type CaseSpec struct {
 	// Planned shape of the focus request (informative; fingerprints use the
 	// relations measured at run time).
 	PlanOp, PlanStart, PlanArrival, PlanDup, PlanFault string
+	// Sweep is set for cases of the sweep family (sweep.go).
+	Sweep *SweepPlan `json:"sweep,omitempty"`
 }
 
 var (
